@@ -72,11 +72,12 @@ pub fn c11(tier: &str, seed: u64) -> i32 {
     let mut ctx = Ctx::new("C11", tier, seed, "model_checking");
     let thorough = ctx.thorough();
     // two maps of the same type whose names differ only after a dot, and one map of every other type;
-    // maps 0 and 1 share their keys on purpose: the same key in two maps must stay two entries
+    // maps 0/1 and 2/3 (names differing only in letter case) share their keys on purpose: the same key in two maps must stay two entries
     let mut maps = vec![
         std_map(KtId::Str, 8, 2, 5, seed, "users.v1"),
         std_map(KtId::Str, 8, 2, 5, seed, "users.v2"),
-        std_map(KtId::Bytes, 8, 2, 5, seed ^ 9, "c"),
+        std_map(KtId::Bytes, 8, 2, 5, seed ^ 9, "Cc"),
+        std_map(KtId::Bytes, 8, 2, 5, seed ^ 9, "cc"),
         std_map(KtId::U64, 8, 2, 8, seed, "d"),
     ];
     maps[1].keys = maps[0].keys.clone();
